@@ -117,6 +117,11 @@ def families(tier, seed):
                                   vars={"x": ["output", 0.21], "a": ["const", 1.06]})}, nodes={"p": dict(ops=["eo"])}, edges=[])
         out.append(dict(tag=f"W-constant-{cname}/code/fortran", features=dict(path="code", backend="fortran", constant=cname), kind="field", model=wm, vec=False,
                         seed=seed + 7, style=0, n_states=3, n_param_draws=1, backend="fortran"))
+    # fixed witness of a listed finding: decimal literals of an equation in the generated Fortran code (single precision)
+    wl = dict(ops={"eo": dict(name="eo", eqs=[["x", "de", ["-", ["num", 0.7], ["*", ["num", 0.1], ["var", "x"]]]]], vars={"x": ["output", 0.21]})},
+              nodes={"p": dict(ops=["eo"])}, edges=[])
+    out.append(dict(tag="W-literal-0.1/code/fortran", features=dict(path="code", backend="fortran", literal=0.1), kind="field", model=wl, vec=False,
+                    seed=seed + 7, style=0, n_states=3, n_param_draws=1, backend="fortran"))
     # sequences of expressions in one process (direct evaluation): random batches, and pairs whose non-commutative node has compound
     # operands of different kinds with the longer operand on opposite sides
     # (expressions with the structure of a listed finding — a function of numerically constant arguments, a function nested in
